@@ -142,21 +142,26 @@ func GenHistory(r *ref.Rand, keys []string, o GenOpts) []Op {
 	for len(ops) < o.NOps {
 		x := r.Intn(100)
 		if o.Maint && x < o.MaintPct {
-			m := r.Intn(100)
+			wFlush, wFlush0, wHints, wRestart, wGC := 30, 6, 16, 0, 0
+			if o.Restart {
+				wRestart = 20
+			}
+			if o.GC {
+				wGC = 30
+			}
+			m := r.Intn(wFlush + wFlush0 + wHints + wRestart + wGC)
 			switch {
-			case m < 35:
+			case m < wFlush:
 				ops = append(ops, Op{K: "flush"})
-			case m < 45:
+			case m < wFlush+wFlush0:
 				ops = append(ops, Op{K: "flush0"})
-			case m < 65:
+			case m < wFlush+wFlush0+wHints:
 				ops = append(ops, Op{K: "hints"})
-			case m < 85 && o.Restart:
+			case m < wFlush+wFlush0+wHints+wRestart:
 				rm := []string{"", "", "all", "hash", "s", "m", "rand:" + strconv.FormatUint(r.Uint64()%1000000, 10), "rand:" + strconv.FormatUint(r.Uint64()%1000000, 10)}[r.Intn(8)]
 				ops = append(ops, Op{K: "restart", Rm: rm, Variants: o.Variants})
-			case o.GC:
-				ops = append(ops, Op{K: "gc", Sel: r.Uint64() % 1000000, Merge: r.Bool()})
 			default:
-				ops = append(ops, Op{K: "flush"})
+				ops = append(ops, Op{K: "flush"}, Op{K: "gc", Sel: r.Uint64() % 1000000, Merge: r.Bool()})
 			}
 			continue
 		}
